@@ -269,4 +269,54 @@ theorem os_error_codes :
   have h2' : e ∉ timedOutErrnos := by simpa using h2
   simp [connErrOfErrno, h1', h2', failWith, statusOf, warnOf]
 
+theorem failWith_ne_ok200 (e : Gen.ConnErr) : failWith e ≠ ok200 := by
+  cases e <;> decide
+
+/-- **A failed attempt is never reported as success**: for an ordinary destination, when the outbound
+attempt fails (or completes only after the establishment timeout) no 200 is sent, whatever the
+credentials and the form of the authority -/
+theorem failed_connect_never_200 (r : Req) (hk : promote r = .tcp) (policy : Policy) (authn : Option Authn) (env : Env)
+    (hf : (∃ e, env.connect = .err e) ∨ (∃ ms, env.connect = .delayedOk ms ∧ env.establishTimeoutMs < ms)) :
+    ok200 ∉ handle r policy authn env := by
+  have hne : ∀ e, ok200 ≠ failWith e := fun e h => failWith_ne_ok200 e h.symm
+  have hne2 : ok200 ≠ Event.egress .tcpConnect := by decide
+  unfold handle
+  cases gate (authInfo r.authHdr) policy authn with
+  | reject => simp [hne]
+  | pass fa =>
+    simp only [hk]
+    split
+    · simp [hne]
+    · rcases hf with ⟨e, he⟩ | ⟨ms, hms, hlt⟩
+      · rw [he]
+        simp [hne, hne2]
+      · rw [hms]
+        have : ¬ ms ≤ env.establishTimeoutMs := by omega
+        simp [this, hne, hne2]
+
+set_option linter.unusedSimpArgs false in
+/-- **At most one outbound connection attempt per request** -/
+theorem at_most_one_connect_attempt (r : Req) (policy : Policy) (authn : Option Authn) (env : Env) :
+    ((handle r policy authn env).filter (· == Event.egress .tcpConnect)).length ≤ 1 := by
+  unfold handle
+  cases gate (authInfo r.authHdr) policy authn with
+  | reject => simp [failWith, List.filter_cons]
+  | pass fa =>
+    cases promote r with
+    | health => simp [ok200, List.filter_cons]
+    | badMethod => simp [List.filter_cons]
+    | mux icmp =>
+      simp only
+      split <;> split <;> cases icmp <;> simp [failWith, ok200, List.filter_cons, List.filter_append]
+    | tcp =>
+      simp only
+      split
+      · simp [failWith, List.filter_cons]
+      · split
+        · split <;> simp [ok200, List.filter_cons]
+        · simp [failWith, List.filter_cons]
+        · split
+          · split <;> simp [ok200, List.filter_cons]
+          · simp [failWith, List.filter_cons]
+
 end TT.Dispatch
